@@ -93,4 +93,40 @@ theorem c14_open_after_close_fails (s : Sys) (k : Nat) (x : Sess) (hk : s.sess[k
   · intro h1 h2; simp [openCheck, hk, h1, h2]
   · intro h1 h2; simp [openInsert, hk, h1, h2]
 
+
+/-! ### F23: the tail of newSession against the event loop -/
+section Estab
+open Estab
+
+/-- nothing has gone wrong, and as long as the connection is not registered the queue manager is there and nobody is
+    closing; the registration is the thread's last step -/
+def inv (s : St) : Bool :=
+  !s.panicked && (s.registered || (s.qm && !s.closing)) && (!s.registered || s.pc == .done)
+
+theorem inv_step (s : St) (e : Ev) (h : inv s = true) : inv (Estab.step fixedProg s e) = true := by
+  rcases s with ⟨pc, qm, reg, cl, pn⟩
+  cases pc <;> cases qm <;> cases reg <;> cases cl <;> cases pn <;> cases e <;> first | rfl | (exact absurd h (by decide))
+
+/-- **F23 cannot come back:** with the name recorded before the registration, no interleaving of the session thread with
+    a connection that breaks at any moment, and the clean-up that follows, dereferences a dropped queue manager -/
+theorem c14_newSession_never_derefs_dropped_qm (l : List Ev) : (Estab.run fixedProg l).panicked = false := by
+  have : ∀ (l : List Ev) (s : St), inv s = true → inv (l.foldl (Estab.step fixedProg) s) = true := by
+    intro l
+    induction l with
+    | nil => intro s h; exact h
+    | cons e r ih => intro s h; exact ih _ (inv_step s e h)
+  have h := this l {} (by decide)
+  unfold Estab.run
+  revert h
+  generalize (List.foldl (Estab.step fixedProg) {} l) = s
+  rcases s with ⟨pc, qm, reg, cl, pn⟩
+  cases pn
+  · intro _; rfl
+  · intro h; simp [inv] at h
+
+/-- ... and the order before the repair does: the schedule the harness scenario `early` replays -/
+theorem old_order_panics : (Estab.run oldProg [.t, .peerBreak, .cleanup, .t]).panicked = true := by decide
+
+end Estab
+
 end Props.C14
